@@ -462,6 +462,14 @@ def exec_for_invariant(engine, ctx, st: ast.For, env: Env, it, inv):
 
     def inv_clauses(i):
         ns = NS(i=i, seq=it, lo=lo, hi=hi, ctx=ctx, **{k: v for k, v in env.vars.items()})
+        trig = getattr(inv, "triggers", None)
+        if trig is not None:
+            # trigger atoms (uninterpreted marker predicates without axioms of their own): assuming them only tells the
+            # solver where to instantiate a definitional axiom of the prelude
+            for t in engine.run_spec(ctx, lambda: list(trig(ns))):
+                if not (z3.is_app(t) and t.decl().name().startswith("unfold!")):
+                    raise EngineLimit("a trigger must be an unfold! marker atom")
+                ctx.assume(t)
         return engine.run_spec(ctx, lambda: _as_items(inv(ns)))
 
     # initiation
